@@ -505,14 +505,15 @@ func (sp *yamlSpecScanner) UnmarshalSpec(u func([]byte) error) (err error) {
 // removes indent base on the first line
 func removeIndent(spec []string) []string {
 	loc := rxIndent.FindStringIndex(spec[0])
-	if loc[1] == 0 {
+	if loc == nil || loc[1] == 0 {
 		return spec
 	}
 	for i := range spec {
 		if len(spec[i]) >= loc[1] {
 			spec[i] = spec[i][loc[1]-1:]
 			start := rxNotIndent.FindStringIndex(spec[i])
-			if start[1] == 0 {
+			if start == nil || start[1] == 0 {
+				// a blank line
 				continue
 			}
 
@@ -524,8 +525,11 @@ func removeIndent(spec []string) []string {
 
 // removes indent base on the first line
 func removeYamlIndent(spec []string) []string {
+	if len(spec) == 0 {
+		return nil
+	}
 	loc := rxIndent.FindStringIndex(spec[0])
-	if loc[1] == 0 {
+	if loc == nil || loc[1] == 0 {
 		return nil
 	}
 	var s []string
@@ -1543,12 +1547,12 @@ func (stack *extensionParsingStack) walkBack(rawLines []string, lineIndex int) {
 		// Pop elements off the stack until we're back where we need to be
 		runbackIndex := 0
 		poppedIndent := 1000
-		for {
+		for runbackIndex <= lineIndex {
 			checkIndent := strings.IndexAny(rawLines[lineIndex-runbackIndex], AlphaChars)
 			if nextIndent == checkIndent {
 				break
 			}
-			if checkIndent < poppedIndent {
+			if checkIndent < poppedIndent && len(*stack) > 0 {
 				*stack = (*stack)[:len(*stack)-1]
 				poppedIndent = checkIndent
 			}
@@ -1560,7 +1564,7 @@ func (stack *extensionParsingStack) walkBack(rawLines []string, lineIndex int) {
 // Recursively parses through the given extension lines, building and adding extension objects as it goes.
 // Extensions may be key:value pairs, arrays, or objects.
 func buildExtensionObjects(rawLines []string, cleanLines []string, lineIndex int, extObjs *[]extensionObject, stack *extensionParsingStack) {
-	if lineIndex >= len(rawLines) {
+	if lineIndex >= len(rawLines) || lineIndex >= len(cleanLines) {
 		if stack != nil {
 			if ext, ok := (*stack)[0].(extensionObject); ok {
 				*extObjs = append(*extObjs, ext)
@@ -1576,7 +1580,7 @@ func buildExtensionObjects(rawLines []string, cleanLines []string, lineIndex int
 	}
 
 	nextIsList := false
-	if lineIndex < len(rawLines)-1 {
+	if lineIndex < len(rawLines)-1 && lineIndex < len(cleanLines)-1 {
 		next := strings.SplitAfterN(cleanLines[lineIndex+1], ":", 2)
 		nextIsList = len(next) == 1
 	}
@@ -1628,23 +1632,28 @@ func buildExtensionObjects(rawLines []string, cleanLines []string, lineIndex int
 		} else if stack != nil && len(*stack) != 0 {
 			stackIndex := len(*stack) - 1
 			if value == "" {
+				parent, isMap := (*stack)[stackIndex].(map[string]interface{})
+				if !isMap {
+					// malformed nesting: a key where a list item or a new extension is expected
+					return
+				}
 				if nextIsList {
 					// start of new list
 					newList := make([]string, 0)
-					(*stack)[stackIndex].(map[string]interface{})[key] = &newList
+					parent[key] = &newList
 					*stack = append(*stack, &newList)
 				} else {
 					// start of new map
 					newMap := make(map[string]interface{})
-					(*stack)[stackIndex].(map[string]interface{})[key] = newMap
+					parent[key] = newMap
 					*stack = append(*stack, newMap)
 				}
 			} else {
 				// key:value
-				if reflect.TypeOf((*stack)[stackIndex]).Kind() == reflect.Map {
-					(*stack)[stackIndex].(map[string]interface{})[key] = value
+				if parent, isMap := (*stack)[stackIndex].(map[string]interface{}); isMap {
+					parent[key] = value
 				}
-				if lineIndex < len(rawLines)-1 && !rxAllowedExtensions.MatchString(cleanLines[lineIndex+1]) {
+				if lineIndex < len(rawLines)-1 && lineIndex < len(cleanLines)-1 && !rxAllowedExtensions.MatchString(cleanLines[lineIndex+1]) {
 					stack.walkBack(rawLines, lineIndex)
 				}
 			}
@@ -1653,10 +1662,14 @@ func buildExtensionObjects(rawLines []string, cleanLines []string, lineIndex int
 	} else if stack != nil && len(*stack) != 0 {
 		// Should be a list item
 		stackIndex := len(*stack) - 1
-		list := (*stack)[stackIndex].(*[]string)
+		list, isList := (*stack)[stackIndex].(*[]string)
+		if !isList {
+			// malformed nesting: a list item where a key is expected
+			return
+		}
 		*list = append(*list, key)
 		(*stack)[stackIndex] = list
-		if lineIndex < len(rawLines)-1 && !rxAllowedExtensions.MatchString(cleanLines[lineIndex+1]) {
+		if lineIndex < len(rawLines)-1 && lineIndex < len(cleanLines)-1 && !rxAllowedExtensions.MatchString(cleanLines[lineIndex+1]) {
 			stack.walkBack(rawLines, lineIndex)
 		}
 		buildExtensionObjects(rawLines, cleanLines, lineIndex+1, extObjs, stack)
